@@ -291,6 +291,105 @@ impl<'a> Bulk<'a> {
                 v("leak", format!("Set::extend [{}]: {} objects alive after everything was dropped", descr, ledger::alive_count()));
             }
         }
+        // ---- the crate's own iterators as the bulk source: "in order" is the order in which the source's
+        // next() hands the items out, whatever way the constructor chooses to consume it (for loop, for_each,
+        // fold, by_ref + take ...); a source container of 8 slots holds the item descriptors under unique ordinals
+        if start.is_empty() && !classes.is_empty() && classes.len() <= 8 {
+            type Item3 = (u32, u32, u32);
+            let mut srcmap: Map<u32, Item3, 8> = Map::new();
+            let mut srcset: Set<u32, 8> = Set::new();
+            for (i, it) in items.iter().enumerate() {
+                srcmap.insert(i as u32, *it);
+                srcset.insert(i as u32);
+            }
+            // churn so that the slot order is not the insertion order
+            if classes.len() >= 3 && self.case_no % 2 == 0 {
+                let e = srcmap.remove(&0).unwrap();
+                srcmap.insert(0, e);
+                srcset.remove(&0);
+                srcset.insert(0);
+            }
+            for kind in 0..7usize {
+                let kname = ["into_iter().map", "into_values().map", "drain().map", "iter().map", "values().map", "Set::into_iter().map", "Set::iter().map"][kind];
+                ledger::reset();
+                ledger::set_ctx(self.case_no, kind as u32, "own-iterator-source");
+                self.cx.rep.evaluations += 1;
+                self.cx.rep.hit(&format!("own-source:{}:{}", kname, shape));
+                // the order next() gives on an identical source
+                let order: Vec<Item3> = match kind {
+                    0 => { let mut o = Vec::new(); let mut it = srcmap.clone().into_iter(); while let Some((_, d)) = it.next() { o.push(d); } o }
+                    1 => { let mut o = Vec::new(); let mut it = srcmap.clone().into_values(); while let Some(d) = it.next() { o.push(d); } o }
+                    2 => { let mut o = Vec::new(); let mut c = srcmap.clone(); let mut it = c.drain(); while let Some((_, d)) = it.next() { o.push(d); } o }
+                    3 => { let mut o = Vec::new(); let mut it = srcmap.iter(); while let Some((_, d)) = it.next() { o.push(*d); } o }
+                    4 => { let mut o = Vec::new(); let mut it = srcmap.values(); while let Some(d) = it.next() { o.push(*d); } o }
+                    5 => { let mut o = Vec::new(); let mut it = srcset.clone().into_iter(); while let Some(i) = it.next() { o.push(items[i as usize]); } o }
+                    _ => { let mut o = Vec::new(); let mut it = srcset.iter(); while let Some(i) = it.next() { o.push(items[*i as usize]); } o }
+                };
+                let (want_m, over_m) = fold_model(&[], N, &order, false);
+                let (want_s, over_s) = fold_model(&[], N, &order, true);
+                let mkp = |d: Item3| (F::K::mk(d.0, d.1), F::V::mk(d.2));
+                let mkk = |d: Item3| F::K::mk(d.0, d.1);
+                let items2 = items.clone();
+                let rm = fault::catch(|| -> Map<F::K, F::V, N> {
+                    match kind {
+                        0 => srcmap.clone().into_iter().map(|(_, d)| mkp(d)).collect(),
+                        1 => srcmap.clone().into_values().map(mkp).collect(),
+                        2 => srcmap.clone().drain().map(|(_, d)| mkp(d)).collect(),
+                        3 => srcmap.iter().map(|(_, d)| mkp(*d)).collect(),
+                        4 => srcmap.values().map(|d| mkp(*d)).collect(),
+                        5 => srcset.clone().into_iter().map(|i| mkp(items2[i as usize])).collect(),
+                        _ => srcset.iter().map(|i| mkp(items2[*i as usize])).collect(),
+                    }
+                });
+                match (rm, over_m) {
+                    (Caught::Ok(m), None) => self.cmp_map::<F, N>("Map::from_iter(own iterator)", &format!("{} source={}", descr, kname), &m, &want_m),
+                    (Caught::Panic(_), Some(_)) => {}
+                    (Caught::Ok(_), Some(i)) => v("no-panic-on-overflow", format!("Map::from_iter [{} source={}] returned although item {} (in next() order) is a new key that does not fit", descr, kname, i)),
+                    (Caught::Panic(msg), None) => v("panic-although-fits", format!("Map::from_iter [{} source={}] panicked ({}) although at most N distinct keys are supplied", descr, kname, msg)),
+                    (Caught::Injected(..), _) => unreachable!(),
+                }
+                let rs = fault::catch(|| -> Set<F::K, N> {
+                    match kind {
+                        0 => srcmap.clone().into_iter().map(|(_, d)| mkk(d)).collect(),
+                        1 => srcmap.clone().into_values().map(mkk).collect(),
+                        2 => srcmap.clone().drain().map(|(_, d)| mkk(d)).collect(),
+                        3 => srcmap.iter().map(|(_, d)| mkk(*d)).collect(),
+                        4 => srcmap.values().map(|d| mkk(*d)).collect(),
+                        5 => srcset.clone().into_iter().map(|i| mkk(items2[i as usize])).collect(),
+                        _ => srcset.iter().map(|i| mkk(items2[*i as usize])).collect(),
+                    }
+                });
+                match (rs, over_s) {
+                    (Caught::Ok(m), None) => self.cmp_set::<F, N>("Set::from_iter(own iterator)", &format!("{} source={}", descr, kname), &m, &want_s),
+                    (Caught::Panic(_), Some(_)) => {}
+                    (Caught::Ok(_), Some(i)) => v("no-panic-on-overflow", format!("Set::from_iter [{} source={}] returned although item {} (in next() order) is a new element that does not fit", descr, kname, i)),
+                    (Caught::Panic(msg), None) => v("panic-although-fits", format!("Set::from_iter [{} source={}] panicked ({}) although at most N distinct elements are supplied", descr, kname, msg)),
+                    (Caught::Injected(..), _) => unreachable!(),
+                }
+                // Set::extend from the own iterator onto an empty set
+                let mut ext: Set<F::K, N> = Set::new();
+                let re = fault::catch(|| match kind {
+                    0 => ext.extend(srcmap.clone().into_iter().map(|(_, d)| mkk(d))),
+                    1 => ext.extend(srcmap.clone().into_values().map(mkk)),
+                    2 => ext.extend(srcmap.clone().drain().map(|(_, d)| mkk(d))),
+                    3 => ext.extend(srcmap.iter().map(|(_, d)| mkk(*d))),
+                    4 => ext.extend(srcmap.values().map(|d| mkk(*d))),
+                    5 => ext.extend(srcset.clone().into_iter().map(|i| mkk(items2[i as usize]))),
+                    _ => ext.extend(srcset.iter().map(|i| mkk(items2[*i as usize]))),
+                });
+                match (&re, over_s) {
+                    (Caught::Ok(()), None) | (Caught::Panic(_), Some(_)) => {}
+                    (Caught::Ok(()), Some(i)) => v("no-panic-on-overflow", format!("Set::extend [{} source={}] returned although item {} does not fit", descr, kname, i)),
+                    (Caught::Panic(msg), None) => v("panic-although-fits", format!("Set::extend [{} source={}] panicked ({}) although everything fits", descr, kname, msg)),
+                    (Caught::Injected(..), _) => unreachable!(),
+                }
+                self.cmp_set::<F, N>("Set::extend(own iterator)", &format!("{} source={}", descr, kname), &ext, &want_s);
+                drop(ext);
+                if F::TRACKED && ledger::alive_count() != 0 {
+                    v("leak", format!("bulk construction from {} [{}]: {} objects alive after everything was dropped", kname, descr, ledger::alive_count()));
+                }
+            }
+        }
         if ledger::viol_total() > 0 {
             self.cx.rep.absorb_violations("C16", &|| vec![descr.clone()]);
         }
